@@ -360,6 +360,15 @@ class TSym(TBase):
     def ite(self, c, a, b):
         return sym.s_where(c, a, b)
 
+    def uf(self, name, arity):
+        """Uninterpreted real function of `arity` finite real arguments (the same symbol for the same name)."""
+        f = z3.Function(name, *([z3.RealSort()] * (arity + 1)))
+
+        def call(*args):
+            return XR(f(*[sym.as_xr(a).v for a in args]))
+
+        return call
+
     def floor_mul(self, x, m):
         """floor(x*m) for x >= 0 and a concrete non-negative integer m (mathematical product)."""
         return sym.s_int_trunc(sym.as_xr(x) * sym.as_xr(float(m)))
@@ -539,6 +548,18 @@ class TConc(TBase):
 
     def ite(self, c, a, b):
         return a if bool(c) else b
+
+    def uf(self, name, arity):
+        """Concrete stand-in of an uninterpreted function: a fixed smooth function determined by the name."""
+        import zlib
+
+        seed = zlib.crc32(name.encode())
+        coef = rnp.random.default_rng(seed).normal(size=arity + 1)
+
+        def call(*args):
+            return float(rnp.sin(coef[0] + sum(c * float(a) for c, a in zip(coef[1:], args))) * 3.0 + coef[0])
+
+        return call
 
     def floor_mul(self, x, m):
         return int(math.floor(Fraction(float(x)) * int(m)))
